@@ -99,9 +99,12 @@ class Evaluator:
         try:
             value = cell.formula.ast.eval(context)
         except Exception as err:
+            # The report of a cell further down the chain is quoted as it is:
+            # repr() would escape its quotes again at every level.
+            detail = str(err) if isinstance(err, RuntimeError) else repr(err)
             raise RuntimeError(
                 f"Problem evaluating cell {addr} formula "
-                f"{cell.formula.formula}: {repr(err)}"
+                f"{cell.formula.formula}: {detail}"
             ).with_traceback(sys.exc_info()[2])
         finally:
             self._evaluating.pop()
